@@ -1153,6 +1153,11 @@ struct Engine {
         std::string r = compareObs(got, exp, cmpOptions(), observer);
         std::string ex = obsText(got, true, T::directed);
         digest = fnv1a(ex, digest);
+        if (T::fam == 'W' && opt.exactWeights) {
+            char tb[64];
+            std::snprintf(tb, sizeof tb, "%La", got.totalW);
+            digest = fnv1a(tb, std::strlen(tb), digest);
+        }
         if (obsOut)
             *obsOut = got;
         lastExact = ex;
